@@ -286,7 +286,6 @@ theorem Inv.step_of_touched {s s' : State} {K : Key} {u : Uid} (h : Inv s) (hc :
 theorem inv_setPodBound (s : State) (id : String × String) (p : Pod) (node : String) (H : List HInfo) (h : Inv s)
     (hp : Tbl.get s.pods id = some p)
     (hown : ∀ hd, hd ∈ H → ∃ r, Tbl.get s.alloc hd.ip = some r ∧ r.key = keyOf p ∧ r.uid = p.uid)
-    (hku : ∀ ip r, Tbl.get s.alloc ip = some r → r.key = keyOf p → r.uid = 0 ∨ r.uid = p.uid)
     (hl : ∀ l, Tbl.get s.vPods id = some l → l.uid = p.uid) :
     Inv { s with pods := Tbl.set s.pods id { p with node := node, handed := H } } := by
   obtain ⟨hpid, hp0, hplt, hpwf⟩ := h.podsWF id p hp
@@ -305,13 +304,10 @@ theorem inv_setPodBound (s : State) (id : String × String) (p : Pod) (node : St
     · rw [Tbl.get_set_ne _ _ e1] at hq; exact Or.inr ⟨fun x => e1 x.symm, hq⟩
   refine ⟨coherent_of_eq h.coh rfl rfl rfl rfl, ?_, ?_, ?_, ?_, ?_, ?_, h.uidPos, Tbl.nodup_keys_set _ _ h.podsNodup,
     h.vPodsNodup⟩
-  · refine ⟨fun q hq hd hm => ?_, fun q hq ip r hg hk => ?_⟩
-    · rcases hlb q hq with ⟨_, hq'⟩ | e
-      · exact h.safe.own q hq' hd hm
-      · subst e; exact hown hd hm
-    · rcases hlb q hq with ⟨_, hq'⟩ | e
-      · exact h.safe.keyUids q hq' ip r hg hk
-      · subst e; exact hku ip r hg hk
+  · refine ⟨fun q hq hd hm => ?_⟩
+    rcases hlb q hq with ⟨_, hq'⟩ | e
+    · exact h.safe.own q hq' hd hm
+    · subst e; exact hown hd hm
   · intro id' q hg
     rcases hget id' q hg with ⟨e1, e2⟩ | ⟨_, hq⟩
     · subst e1; subst e2; exact ⟨hpid, hp0, hplt, hpwf⟩
@@ -346,8 +342,7 @@ theorem inv_setPodBound (s : State) (id : String × String) (p : Pod) (node : St
 theorem bindCommit_spec (s : State) (pod : Pod) (ns name : String) (uid : Nat) (node : String) (ips : List IP) (h : Inv s)
     (hl : Tbl.get s.vPods (ns, name) = some pod)
     (huid0 : uid ≠ 0) (hluid : pod.uid = uid)
-    (hown : ∀ ip, ip ∈ ips → hasKeyUid (keyOf pod) pod.uid (Tbl.get s.alloc ip))
-    (hku : ∀ ip r, Tbl.get s.alloc ip = some r → r.key = keyOf pod → r.uid = 0 ∨ r.uid = pod.uid) :
+    (hown : ∀ ip, ip ∈ ips → hasKeyUid (keyOf pod) pod.uid (Tbl.get s.alloc ip)) :
     Inv (bindCommit s pod ns name uid node ips).1 ∧ (bindCommit s pod ns name uid node ips).1.plog = s.plog := by
   have q3 : QuietStep s (if s.api.2 = true then s.api.1.api.1 else s.api.1) := by
     split
@@ -393,10 +388,6 @@ theorem bindCommit_spec (s : State) (pod : Pod) (ns name : String) (uid : Nat) (
         have : (toHInfo s ip).ip = ip := by unfold toHInfo; split <;> rfl
         rw [this, q3.alloc]
         exact ⟨r, hr, by rw [hrk, hk], by rw [hru, hu]⟩
-      · intro ip r hg hrk
-        rw [q3.alloc] at hg
-        have := hku ip r hg (by rw [hrk, hk])
-        rw [hu]; exact this
       · intro l hl'
         rw [q3.frame.vPods, hl] at hl'
         cases hl'; exact hu.symm
@@ -487,17 +478,8 @@ theorem bind_spec (s : State) (ns name : String) (uid : Nat) (node : String) (ch
                   · exact bindLoop_found (keyOf pod) node { policy := policyOf pod, node := node, uid := pod.uid }
                       (infos.filterMap id) _ _ sp.coherent hlok ip hip hf
                   · exact chg_stable bl.2.1 ip hnew
-                have hku : ∀ ip r, Tbl.get (bindLoop (bindAlloc s pod node
-                      { policy := policyOf pod, node := node, uid := pod.uid } infos ch.pick).1 (keyOf pod) node
-                      { policy := policyOf pod, node := node, uid := pod.uid } (infos.filterMap id)
-                      ((bindAlloc s pod node { policy := policyOf pod, node := node, uid := pod.uid } infos
-                        ch.pick).2.2.filterMap id)).1.alloc ip = some r → r.key = keyOf pod → r.uid = 0 ∨ r.uid = pod.uid := by
-                  intro ip r hg hk
-                  rcases tAB.recs ip with e | ⟨r', g', _, u', _⟩
-                  · rw [e] at hg; exact h2 ip r hg hk
-                  · rw [hg] at g'; cases g'; exact Or.inr u'
                 have f := tAB.frame
-                have cm := bindCommit_spec _ pod ns name uid node _ hiB (by rw [f.vPods]; exact hl) huid0 hluid hown hku
+                have cm := bindCommit_spec _ pod ns name uid node _ hiB (by rw [f.vPods]; exact hl) huid0 hluid hown
                 exact ⟨cm.1, lgB.trans (UnassignsWithin.of_plog_eq _ cm.2)⟩
               · exact ⟨hiB, lgB⟩
 
